@@ -331,7 +331,7 @@ class Inliner:
         blocks = f.cfg['blocks']
         maxid = max(b['id'] for b in blocks)
         off = maxid + 1
-        b2 = {'id': off + len(g.cfg['blocks']) + 1, 'elems': blk['elems'][k:], 'succs': blk['succs']}
+        b2 = {'id': off + max(b_['id'] for b_ in g.cfg['blocks']) + 1, 'elems': blk['elems'][k:], 'succs': blk['succs']}     # the ids of an already inlined callee are not contiguous
         for key in ('term', 'term_c', 'cond', 'noreturn'):
             if key in blk:
                 b2[key] = blk.pop(key)
